@@ -32,6 +32,7 @@ ASSUMPTIONS = [
     "continuous EVSE: max - eps <= granted <= max, eps = the tolerance the algorithm actually passes to max_feasible_rate (recorded by a harness-side wrapper)",
     "reference feasibility uses the default tolerances 1e-5 / 1e-7 the algorithms hard-code",
     "items marked 'after': the same algorithm object has first served a complete simulation on another network with the same station ids",
+    "extra blocks: three simultaneous sessions (every combination of kinds); two run() stages with the limit of the last-added constraint changed under the same name in between (reference uses the limit then in force)",
     "uninterrupted charging off (the property's allocation rule is stated for lower bound 0)",
 ]
 CHUNK = 20
@@ -65,7 +66,7 @@ REUSE = {"N2": "N5", "N5": "N7", "N7": "N2", "N10": "N5"}
 
 def space(tier, seed):
     items = list(A.scenarios(tier, NETS, unint_values=(False,)))
-    extra = list(A.inc_scenarios(tier)) + list(A.period_scenarios(tier))
+    extra = list(A.inc_scenarios(tier)) + list(A.period_scenarios(tier)) + list(A.three_scenarios(tier)) + list(A.edit_scenarios(tier, (False,)))
     seen = set()
     for scn in list(items):
         key = (scn["net"], repr(scn["sessions"]))
@@ -82,8 +83,10 @@ def space(tier, seed):
 # reference model
 # ---------------------------------------------------------------------------
 class Ref:
-    def __init__(self, netname):
+    def __init__(self, netname, edit=None):
         spec = S.NETS[netname]
+        if edit is not None:  # the limit of the last-added constraint was changed by its owner
+            spec = dict(spec, constraints=list(spec["constraints"][:-1]) + [(spec["constraints"][-1][0], spec["constraints"][-1][1], edit)])
         self.spec = spec
         self.st = list(spec["stations"])
         self.ang = {s: math.radians(spec["stations"][s][2]) for s in self.st}
@@ -284,8 +287,9 @@ def execute(scn):
     stats = {}
     if tr.error is not None:
         out("exception:%s" % type(tr.error).__name__, "run() raised %r" % tr.error, repr(tr.error), None)
+    ref_after = Ref(scn["net"], edit=scn["edit"]) if scn.get("edit") is not None else ref
     for c in tr.calls:
-        res.append(check_call(scn, c, ref, out, stats))
+        res.append(check_call(scn, c, ref_after if (scn.get("edit") is not None and c["t"] >= scn["two_phase"]) else ref, out, stats))
     return tr, viol, res, stats
 
 
